@@ -33,7 +33,7 @@ TECHNIQUE = "deterministic simulation: evaluation-budget cut at every evaluation
 DESIGN_REF = "DESIGN.md 4.1"
 BUDGET = {
     "quick": {"plans": 4000, "wall": 90, "chunk": 8},
-    "thorough": {"plans": 40000, "wall": 900, "chunk": 16},
+    "thorough": {"plans": 40000, "wall": 900, "chunk": 4},
 }
 RULE = (
     "one plan = (problem, configuration, cut sample); one evaluation = one activation of minimize_lbfgsb with "
